@@ -122,6 +122,22 @@ CLAIMS = {
         technique="finite-domain abstract interpretation of the printing code + canonical-form operand matching + "
                   "index-space inference",
     ),
+    "C02": dict(
+        category="other",
+        text="The evaluation discipline of the driver is decided structurally on the resolved bodies, for every "
+             "grammar and input: both stacks move in lock-step in every action (LOCK), a reduction uncovers the "
+             "state, takes the goto from the rule's left side, invokes the rule's own functor exactly once on exactly "
+             "the r topmost values in right-side order and only then erases them and pushes the result (ONCE, ARGS "
+             "over all three arms of reduce_value_impl), a term's value is its own functor applied to the exact "
+             "lexeme view with the current position (TERMV, SLICE), the result is the bottom value (RESULT); rule "
+             "numbers, sorted positions, states and terms are never confused (IDX, TIX). The lexer's snapshot rule "
+             "(MATCH) and the structural table rules are included as necessary conditions.",
+        design_ref="DESIGN.md 5/C02",
+        note=TB + " Not decided: that the table drives exactly the reductions of the derivation (undecided part of "
+                  "C01).",
+        technique="stack-effect pairing and ordering on structured paths, role templates over canonical forms, "
+                  "index-space inference",
+    ),
 }
 
 NOT_APPLICABLE = {
